@@ -648,6 +648,9 @@ def generate(prop, seed, tier):
            'granularity': 'line' if (not thorough or sr.random() < 0.85) else 'call',
            'workers': [kn.choice([1, 1, 2, 16]), kn.choice([1, 1, 2, 16])],
            'rule_flip': None, 'stall': None, 'faults': []}
+    if rng.stream(seed, 'kernelpy').random() < 0.25 and max(max(p) for p in sets) <= 60:
+        # the accumulation kernels run from their Python source: their lines are pre-emption points (interleavings inside the kernels)
+        scn['kernel_py'] = True
     if rng.stream(seed, 'wide16').random() < 0.5:
         scn['wide16'] = rng.stream(seed, 'wide16b').choice([4094, 32766, 65534])
     if rng.stream(seed, 'frac').random() < 0.2:
@@ -785,6 +788,28 @@ def welch_reference(A, B, precision):
 
 # ----------------------------------------------------------------------------- one execution
 
+def _kernels_to_python(scared):
+    """Replace the numba-compiled kernels of scared.ttest by their own Python source (`py_func`).
+
+    A compiled kernel is one atomic step for the scheduler although it releases the GIL: two accumulator threads really overlap inside it.  Run
+    from source, the kernel's lines are pre-emption points like any other line under scared/, so interleavings *inside* the kernels are explored
+    (state the two accumulators might share there - a work buffer - is then written and read under the scheduler's control).
+    """
+    saved = []
+    mod = sys.modules.get('scared.ttest')
+    holders = [mod] if mod is not None else []
+    holders += [c for c in getattr(scared.TTestThreadAccumulator, '__mro__', ()) if getattr(c, '__module__', '').startswith('scared')]
+    for h in holders:
+        for name, raw in list(vars(h).items()):
+            f = raw.__func__ if isinstance(raw, (staticmethod, classmethod)) else raw
+            py = getattr(f, 'py_func', None)
+            if py is None or not callable(py) or not hasattr(f, 'nopython_signatures'):
+                continue
+            saved.append((h, name, raw))
+            setattr(h, name, staticmethod(py) if isinstance(raw, staticmethod) else (classmethod(py) if isinstance(raw, classmethod) else py))
+    return saved
+
+
 def run_schedule(scn, policy=None, schedule=None):
     """Execute all run() calls of the scenario under one scheduling policy / explicit schedule."""
     global SIM
@@ -852,6 +877,7 @@ def run_schedule(scn, policy=None, schedule=None):
     else:
         scared.set_batch_size(scn['rule'])
     SENT = object()
+    swapped = _kernels_to_python(scared) if scn.get('kernel_py') else []
     try:
         with env.clock(env.SimClock()), env.memory(env.SimMemory()):
             for j, (s1, s2) in enumerate(sets):
@@ -894,6 +920,8 @@ def run_schedule(scn, policy=None, schedule=None):
         pass
     finally:
         sys.settrace(None)
+        for h, name, raw in swapped:
+            setattr(h, name, raw)
         main._sim_name = None
         SIM = None
         if sim.aborted:
